@@ -31,6 +31,9 @@ def classify_until(lUntils, iToken, lObjects, oType=parser.todo):
     iCloseParenthesis = 0
     while iCurrent < iStop:
         iCurrent = utils.find_next_token(iCurrent, lObjects)
+        if not utils.is_item(lObjects, iCurrent):
+            # Nothing left to classify, the closing delimiter is missing
+            break
         if utils.token_is_open_parenthesis(iCurrent, lObjects):
             iOpenParenthesis += 1
         if utils.token_is_close_parenthesis(iCurrent, lObjects):
